@@ -102,6 +102,7 @@ type FX struct {
 	labels *labelState
 	dynAssume T
 	lineMeta []lineInfo
+	inputs   []inputTerm
 	usedModels map[string]bool
 	mapOrigin  map[string]*cmap
 	pureDecl   map[string]bool
@@ -320,7 +321,7 @@ func (fx *FX) wrapTo(t T, lo, hi *big.Int, typ types.Type) T {
 var maxInt63 = new(big.Int).Sub(new(big.Int).Lsh(bigOne, 63), bigOne)
 
 const zeroIArr = "((as const (Array Int Int)) 0)"
-const zeroSArr = "((as const (Array Int BSeq)) empty)"
+const zeroSArr = "zeroSArr"
 
 func hasStrLeaf(t types.Type) bool {
 	if t == nil {
@@ -619,6 +620,7 @@ func (fx *FX) run() {
 		}
 		fx.params[name] = v
 		fx.markEntryAllocated(st, p.Type(), v)
+		fx.addInputTerms(p.Name(), p.Type(), v, st)
 	}
 	for _, fv := range fn.FreeVars {
 		v := fx.havoc("fv_"+fv.Name(), fv.Type(), tTrue)
@@ -704,6 +706,54 @@ func (fx *FX) run() {
 		fx.execBlock(b, st)
 	}
 }
+
+type inputTerm struct{ Label, Term string }
+
+// addInputTerms records the terms whose model values describe the function's inputs.
+func (fx *FX) addInputTerms(name string, t types.Type, v Val, st *State) {
+	add := func(label string, tm T) { fx.inputs = append(fx.inputs, inputTerm{label, tm.S}) }
+	switch x := v.(type) {
+	case VInt:
+		add(name, x.T)
+	case VBool:
+		add(name, x.T)
+	case VStr:
+		add(name+".len", app(SInt, "len", x.T))
+		for k := int64(0); k < 24; k++ {
+			add(fmt.Sprintf("%s[%d]", name, k), app(SInt, "at", x.T, num(k)))
+		}
+	case VSlice:
+		add(name+".ref", x.Ref)
+		add(name+".len", x.Len)
+		add(name+".cap", x.Cap)
+		if sizeOf(x.Elem) == 1 && !hasStrLeaf(x.Elem) {
+			for k := int64(0); k < 24; k++ {
+				add(fmt.Sprintf("%s[%d]", name, k), sel(sel(st.H, x.Ref), add2(x.Off, num(k))))
+			}
+		}
+	case VPtr:
+		add(name+".ref", x.Ref)
+		if n := sizeOf(x.Elem); n <= 16 && !hasStrLeaf(x.Elem) {
+			if stt, ok := x.Elem.Underlying().(*types.Struct); ok {
+				for i := 0; i < stt.NumFields(); i++ {
+					if sizeOf(stt.Field(i).Type()) == 1 {
+						add(name+"->"+stt.Field(i).Name(), sel(sel(st.H, x.Ref), add2(x.Off, num(fieldOffset(stt, i)))))
+					}
+				}
+			}
+		}
+	case VStruct:
+		if stt, ok := t.Underlying().(*types.Struct); ok {
+			for i, f := range x.F {
+				fx.addInputTerms(name+"."+stt.Field(i).Name(), stt.Field(i).Type(), f, st)
+			}
+		}
+	case VIface:
+		add(name+".tag", x.Tag)
+	}
+}
+
+func add2(a, b T) T { return add(a, b) }
 
 func (fx *FX) fail(format string, a ...any) {
 	fx.u.errors = append(fx.u.errors, fmt.Sprintf("%s: ", fx.name)+fmt.Sprintf(format, a...))
@@ -1000,6 +1050,17 @@ func (fx *FX) enterLoop(li *loopInfo, h *ssa.BasicBlock, conds []T, sts []*State
 		if li.lc != nil {
 			for _, c := range li.lc.Inv {
 				fx.oblige("inv-entry", fmt.Sprintf("loop%d.%s", li.ordinal, c.Label), conds[k], fx.evalBool(env, c.E), h.Instrs[0].Pos(), c.Src)
+			}
+		}
+	}
+	if li.lc != nil && li.lc.Bound > 0 {
+		if li.lc.Decreases == nil {
+			fx.oblige("bound", fmt.Sprintf("loop%d", li.ordinal), tTrue, tFalse, h.Instrs[0].Pos(), "bound needs a decreases clause")
+		} else {
+			for k := range sts {
+				env := fx.loopEnv(li, sts[k], func(phi *ssa.Phi) Val { return fx.val(phi.Edges[predIdx[k]]) }, phis)
+				fx.oblige("bound", fmt.Sprintf("loop%d", li.ordinal), conds[k], le(fx.evalInt(env, li.lc.Decreases.E), num(li.lc.Bound)), h.Instrs[0].Pos(),
+					fmt.Sprintf("the loop measure is at most %d on entry, so the loop runs at most %d times", li.lc.Bound, li.lc.Bound))
 			}
 		}
 	}
